@@ -15,7 +15,7 @@ META = {
                         '1/8 <= dt/target <= 8 (every feasible refinement/decimation factor is a separate path); even in '
                         '{T,F}; Fourier resampling: L in {8,9,12}, dt concrete, factors {2,3,1/2,1/3,1}, trigonometric '
                         'polynomials with symbolic coefficients up to harmonic 2',
-               'thorough': 'L up to 17; Fourier L up to 16, harmonic 3'},
+               'thorough': 'L up to 12 (17 optional); Fourier L up to 16, harmonic 3'},
     'outside': ['dt/target ratios beyond 8', 'floating-point rounding of the quotient dt/target next to an integer '
                 '(real-arithmetic model; the probe in DESIGN 2.1 shows target+1ulp is reachable)', "SciPy's FFT itself"],
     'assumptions': ['record duration >= 2*max(dt, target) (property precondition)'],
@@ -149,9 +149,11 @@ SELFTEST_PER_SCENARIO = 4
 
 def obligations(tier, seed):
     q = tier == 'quick'
+    # L = 17: one of ~1600 queries came back unknown in the end-to-end thorough run (range clause over 17 merged extremes);
+    # it is attempted as an optional obligation, L <= 12 is what the thorough tier claims
     for L in ((3, 4, 6, 7) if q else (3, 4, 5, 8, 12, 17)):
         for even in (True, False):
-            yield Ob('interp', {'L': L, 'even': even}, query_ms=60000, timeout_s=1500)
+            yield Ob('interp', {'L': L, 'even': even}, query_ms=60000, timeout_s=1500, optional=(L > 12))
     yield Ob('interp', {'L': 5, 'even': True, 'level': 'object'}, query_ms=60000, timeout_s=1500)
     for L in ((8, 9, 12) if q else (8, 9, 12, 15, 16)):
         for factor in (2, 3, 0.5, 1.0 / 3, 1):
